@@ -172,7 +172,8 @@ def check(fs, want_model=False, strings_fallback=True, timeout_ms=None):
             if v != 'unknown':
                 stats['cvc5_decided'] += 1
                 out = (v, rest if v == 'sat' else None, be)
-        if out[0] == 'unknown' and strings_fallback:
+        if out[0] == 'unknown' and strings_fallback and want_model:
+            # (obligation queries only: a validity probe that stays unknown is handled conservatively by the engine)
             # verdicts must not flip with machine load or solver seed: before giving up, z3 again with other
             # seeds and a growing budget (a verdict of either polarity from any attempt is a real verdict)
             for k in (1, 2):
